@@ -327,6 +327,51 @@ func TestC14(t *testing.T) {
 		r.Count("roots_changed_refused", rootsOK)
 		r.Count("roots_changed_resumed_anyway", rootsResumed)
 	}
+	// a session the caller injects (SetSessionState with the state of an earlier connection to
+	// another name) instead of one the library took from the cache: the leaf it carries is
+	// checked against the name in force all the same
+	{
+		var injectedRefused int64
+		for _, tg := range targets {
+			if tg.Pre != nil || tg.ID.Client == tls.HelloGolang.Client || !specHas(tg, func(e tls.TLSExtension) bool { _, ok := e.(*tls.SessionTicketExtension); return ok }) {
+				continue
+			}
+			ch, err := tg.Probe("example.test")
+			if err != nil {
+				continue
+			}
+			if o := OfferOf(ch, targetMinVersion(tg)); !o.Has(tls.VersionTLS12) || len(o.Suites12) == 0 {
+				continue
+			}
+			scfg := peer.ServerConfig()
+			scfg.MaxVersion = tls.VersionTLS12
+			scfg.Certificates = []tls.Certificate{leaves["valid"]}
+			first := newMapCache()
+			if h0 := RunCase(tg, GridCase{Server: scfg}, "good.example.test", func(c *tls.Config) {
+				c.ClientSessionCache = first
+				c.Time = func() time.Time { return now }
+			}, peer.Opts{}); !h0.OK() || first.Any() == nil {
+				continue
+			}
+			st := first.Any()
+			t2 := tg
+			t2.Style = StylePlain
+			t2.Pre = func(u *tls.UConn) error { return u.SetSessionState(st) }
+			h := RunCase(t2, GridCase{Server: scfg}, "elsewhere.example.org", func(c *tls.Config) {
+				c.ClientSessionCache = tls.NewLRUClientSessionCache(2)
+				c.Time = func() time.Time { return now }
+			}, peer.Opts{})
+			if h.ClientErr == nil {
+				r.Violation(map[string]string{"kind": "invalid_certificate_accepted", "cert": "wrong-name", "mode": "injected-session", "target": family(tg.Name)},
+					fmt.Sprintf("%s: a session of a connection to good.example.test, injected with SetSessionState, was resumed (resumed=%v) as elsewhere.example.org, which its leaf does not cover", tg.Name, h.CState.DidResume), map[string]any{"target": tg.Name})
+			} else {
+				injectedRefused++
+			}
+			r.Case(fmt.Sprintf("injected|%s|%v", family(tg.Name), h.ClientErr == nil), true)
+		}
+		r.Count("injected_sessions_for_another_name_refused", injectedRefused)
+		r.Floor("injected_sessions_for_another_name_refused", 3)
+	}
 	// ECH: accepted -> verify against the secret name; rejected -> against the public name
 	echTargets := echCapableTargets()
 	// the same parrots as hand-written specs whose server_name extension names a host of the
